@@ -163,8 +163,40 @@ pub fn sdd_line(rng: &mut Rng, maxvars: usize, maxops: usize) -> String {
     // without compression diagrams (and the implementation's structural comparisons of element
     // vectors) grow quickly: keep those programs short (operands only refer backwards)
     let mut prog = prog;
-    if !compress && prog.ops.len() > 24 {
-        prog.ops.truncate(24);
+    // (one uncompressed program in four is allowed 40 operations; the per-case watchdog bounds
+    // what that costs)
+    let cap = if rng.chance(1, 4) { 40 } else { 24 };
+    if !compress && prog.ops.len() > cap {
+        prog.ops.truncate(cap);
+    }
+    // uncompressed stress (half of the uncompressed programs): a left-linear vtree, and products
+    // of the most recent results appended — without compression, conditioning and quantification
+    // leave nodes whose primes overlap, and products of such nodes are the only way to reach
+    // decision nodes with dozens of elements at these variable counts
+    let mut vt = vt;
+    if !compress && rng.chance(1, 2) {
+        let mut labels: Vec<usize> = (0..n).collect();
+        rng.shuffle(&mut labels);
+        vt = left_linear(&labels);
+        let base = prog.ops.len();
+        if base >= 4 && n >= 4 {
+            // condition / quantify three earlier results on the variables deepest on the LEFT of
+            // the vtree (without compression the primes of the results coincide or overlap) …
+            let mut conds: Vec<usize> = Vec::new();
+            for k in 0..3 {
+                let src = base - 1 - rng.below(std::cmp::min(base, 10) as u64) as usize;
+                let v = labels[k % 2];
+                prog.ops.push(if rng.coin() { Op::Cond(src, v, rng.coin()) } else { Op::Exist(src, v) });
+                conds.push(prog.ops.len() - 1);
+            }
+            // … and multiply them up in a chain: element counts compound
+            let mut acc = conds[0];
+            for k in 0..7 {
+                let other = if k < 2 { conds[k + 1] } else { prog.ops.len() - 1 - rng.below(4) as usize };
+                prog.ops.push(if rng.chance(2, 3) { Op::And(acc, other) } else { Op::Or(acc, other) });
+                acc = prog.ops.len() - 1;
+            }
+        }
     }
     let head = format!(
         "sdd n={} vtree={} compress={} tbl={} ops={}",
